@@ -339,13 +339,23 @@ func normalise(sc Script) Script {
 func judge(w *sup.Worker, sc Script) (string, string) {
 	sc = normalise(sc)
 	body, crash := w.Do(sc, 30*time.Second)
+	if crash != nil {
+		scj, _ := json.Marshal(sc)
+		describe := fmt.Sprintf("script: %s", scj)
+		if len(describe) > 4000 {
+			describe = describe[:4000] + "..."
+		}
+		return fmt.Sprintf("the ATP server process died or hung (%s)\n%s\n%s", crash, firstLines(crash.Log, 30), describe), crash.Kind
+	}
+	return assess(sc, body)
+}
+
+// assess judges the worker's answer for a (normalised) script against the reference reading.
+func assess(sc Script, body json.RawMessage) (string, string) {
 	scj, _ := json.Marshal(sc)
 	describe := fmt.Sprintf("script: %s", scj)
 	if len(describe) > 4000 {
 		describe = describe[:4000] + "..."
-	}
-	if crash != nil {
-		return fmt.Sprintf("the ATP server process died or hung (%s)\n%s\n%s", crash, firstLines(crash.Log, 30), describe), crash.Kind
 	}
 	var r result
 	if err := json.Unmarshal(body, &r); err != nil {
